@@ -7,11 +7,11 @@ from proglayer import parse_trace, parse_case
 
 PROPS = "Props/C19.v"
 RULE = ("C19: programs over the tokio-compatible mpsc (bounded/unbounded: send, blocking_send, try_send, recv, blocking_recv, try_recv, close, drops, len/capacity), "
-        "Semaphore (acquire_many, try_acquire_many, add_permits, forget, close), Mutex, RwLock (with_max_readers), Notify (notified, enable, await, drop, notify_one, notify_waiters) and oneshot, "
+        "Semaphore (acquire_many, try_acquire_many, add_permits, forget, close), Mutex, RwLock (with_max_readers), Notify (notified, enable, await, drop, notify_one, notify_waiters), oneshot and watch (send, send_modify / send_if_modified, send_replace, borrow, borrow_and_update, has_changed, changed, wait_for, subscribe, closed, is_closed / receiver_count, drops of both sides; Sender and Receiver clones), "
         "run by threads (block_on / blocking_*) and by tokio::spawn-ed futures, each on the real crates under a scripted scheduler and on the extracted Coq model (Lang/Tok.v): decisions "
         "(offered, current, yielding, choice), draws, per-operation results, vector clocks, termination and recorded schedule compared.  Oracles on the crate's own traces: FIFO exactly-once delivery, "
         "no value lost before a None, capacity never exceeded, Full only when full, len+capacity=bound at rest, permits held never exceed permits existing (exclusion for locks), and every deadlock "
-        "re-judged against reference semantics of the tokio contracts (channel buffer, permit counts, Notify by counting).  Every 6th program is wild (dead endpoints, nothing held, zero permits, capacity 0).")
+        "re-judged against reference semantics of the tokio contracts (channel buffer, permit counts, Notify by counting; watch: a borrow returns the latest value, has_changed / changed report exactly the sends since the receiver's last look, closure only once every sender is gone, no change notification lost at a deadlock).  Every 6th program is wild (dead endpoints, nothing held, zero permits, capacity 0).")
 
 # directed cases: the witnesses of the findings first (C19-F1, F2, F5, F6 are repaired in /repo: regressions, expected to pass;
 # C19-F3, F4 still known), then regressions of each primitive
@@ -39,6 +39,12 @@ CORPUS = [
     "tok none 1,0,0,1 1 cB1:1 sa1;cr0;rc0;rc0;aw0|sd0.0.1;sd0.0.2;sd0.0.3",
     "tok none 0,1 1 cU:1 sa1;dr0;aw0|bs0.0.1;bs0.0.2",
     "tok none 0,0,1,1,1,1,1 1 s1 sa1;sa2;yd|ac0.3|ac0.1",
+    # watch: every method once; receivers in a thread and in a task; subscribe after the last receiver left; closed()
+    "tok none - 1 h5:1:1 ws0.0.7;wb0.0;wc0.0;wh0.0;wx0.0;wc0.0;wh0.0",
+    "tok none 1,0,1,1,0,1,0,1,1,0,0,1 1 h5:1:2 st1;sa2;ws0.0.7;wp0.0.9;wm0.0.11.0;wm0.0.12.1;wi0.0;wx0.0;jt0;aw0|wc0.0;wu0.0;wf0.0.12;wc0.0;wy0.0|wh0.1;wc0.1;wb0.1;wc0.1;wc0.1",
+    "tok none 1,1,1,0,1,0,1,1,0,0,1 1 h0:1:1 st1;wl0.0;wn0.0.1;wb0.1;jt0|wb0.0;yd;wy0.0",
+    "tok none 0,1,0,1,1,0,0,1,1,1,0,1,0 1 h0:2:3 sa1;sa2;sa3;ws0.0.1;ws0.1.2;wx0.0;wx0.1;aw0;aw1;aw2|wc0.0;wc0.0;wc0.0|wf0.1.2;wc0.1|wu0.2;wh0.2;wc0.2;wc0.2;wc0.2",
+    "tok none 1,0,0,1,0,1,1,0,1 1 h0:1:1 sa1;wc0.0;wc0.0;wc0.0;aw0|ws0.0.1;yd;ws0.0.2;wx0.0",
 ]
 DFS_CASES = [
     ("tokdfs 0 100 n sa1;nf0;an0;aw0|no0", "C19-F4"),
@@ -75,9 +81,9 @@ def run(tier):
     ctx.proof_gate(PROPS)
     if not (ctx.build_model() and ctx.build_harness()):
         return ctx.finish()
-    n = 2700 if tier == "quick" else 40000
+    n = 3300 if tier == "quick" else 48000
     cases = list(CORPUS)
-    focuses = ["mix", "mix", "mpsc", "mpsc", "sem", "lock", "notify", "notify", "oneshot"]
+    focuses = ["mix", "mix", "mpsc", "mpsc", "sem", "lock", "notify", "notify", "oneshot", "watch", "watch"]
     for i in range(n):
         wild = (i % 6 == 0)
         fo = focuses[i % len(focuses)]
@@ -141,7 +147,7 @@ def run(tier):
     if mism:
         ex = [{"case": cases[i], "model": (mo[i] or "")[-600:], "impl": (io[i] or "")[-600:]} for i in mism[:3]]
         ctx.broken.append({"kind": "correspondence", "layer": "tok",
-                           "what": "the Coq model of the tokio-compatible primitives (Lang/TokOps.v, Lang/TokNotify.v, Lang/Tok.v) and the crates disagree on %d of %d programs; "
+                           "what": "the Coq model of the tokio-compatible primitives (Lang/TokOps.v, Lang/TokNotify.v, Lang/TokWatch.v, Lang/Tok.v) and the crates disagree on %d of %d programs; "
                                    "the theorems of %s are about a model that no longer describes the code" % (len(mism), len(cases), PROPS),
                            "examples": ex})
     ctx.cov["rule"] = RULE + " distinct_nontrivial = distinct programs with at least one decision offering more than one task."
